@@ -22,6 +22,12 @@ CHECKS = {
          "As C03; N=3, D<=2, K<=2; the non-mutating index methods are covered by C06's operand-unchanged assertions.", T, "5 C17"),
  "C20": ("The interrupt callback raises at a symbolic invocation index (serial) or at a symbolic subset of invocations (pooled, pool stub): on every path calculate must propagate the injected exception iff some invocation raises, the callback must be consulted exactly i+1 times (serial) / once per sub-cube (pooled), and a second evaluation on the same cube and aggregate objects must equal the direct oracle for all data.",
          "Pool = stub that calls every task and re-raises the first exception (the documented ThreadPool.map contract); K<=3 sub-cubes quick, <=6 thorough.", T + "; fault index as a solver variable", "5 C20"),
+ "C06": ("One inductive step per index operation from an arbitrary well-formed pre-state: the pre-state is the index of a symbolic dense array (all cell values solver variables over a palette), the real operation is executed over symbolic-length row-id arrays, and the dense abstraction of the result (written by the harness over the element terms) must equal the NumPy model of the operation cell by cell; operands unchanged; requested copies share no storage.",
+         "Histories of any length follow from the step + C07 (pre-state = any well-formed index); shapes 1-D N<=3, 2-D 2x2, 3-D 2x2x2 (quick), N<=4 / 3x2 (thorough); kernels = summaries (C08).", T + "; inductive step from an arbitrary well-formed state", "5 C06"),
+ "C07": ("Same one-step exploration as C06; after every operation the representation invariant (uint32, non-empty, strictly increasing row ids below the row count, plain-int coordinates within the shape, nothing under the common value, no row under two values of the same column) is discharged by z3 over the element terms of the result.",
+         "As C06; from_array and INDX load as constructors are covered by C01 and C10.", T + "; inductive invariant", "5 C07"),
+ "C15": ("After each library-chosen normalisation (shift_common(), append, filtered, collapsed) the count of the common value in the dense abstraction is >= the count of every other value for all symbolic contents; == between two independent symbolic indexes holds iff shape, common and dense content coincide, != is its negation, == is reflexive and symmetric, and comparison with a non-index is False.",
+         "As C06; transitivity follows from the iff (equality of triples).", T, "5 C15"),
  "C08": ("Bounded symbolic execution of the lowered set_operations.pyx: every path for every length tuple within the cap, element magnitudes are solver variables over all of uint32; each path's result is checked against a set-algebra specification written in SMT; z3 decides every VC.",
          "Line-level .pyx->Python lowering and the kernel NumPy stub are trusted (cross-validated per path against a scratch build); operands longer than the cap (quick 3 / thorough 5) are outside the claim.", "symbolic execution of the lowered Cython source + z3 (QF_LIA) per path", "5 C08"),
  "C09": ("Same exploration as C08 with every memoryview access in a boundscheck(False) function carrying the obligation 0 <= i < shape[0]; a feasible path with an out-of-range access is a violation, replayed on a scratch build compiled with boundscheck(True).",
